@@ -183,7 +183,8 @@ REGISTRY = {"C07": c07}
 # C06: diagnostics name the true source location
 # ---------------------------------------------------------------------------------------------
 HFILES = {"h3.h": "char h3a;\nchar h3b;\nchar h3c;\n", "h2x.h": "char h2a;\nchar h2b;", "a.inc": "; assembler \u00e9\u00e8 \u20ac (text outside ASCII)\n\tNOP\n",
-          "hg.h": "#ifndef HG_H\n#define HG_H\nchar hga;\n#endif", "hc.h": "char hca;\n// no newline after this comment"}
+          "hg.h": "#ifndef HG_H\n#define HG_H\nchar hga;\n#endif", "hc.h": "char hca;\n// no newline after this comment",
+          "hn.h": "char hna;\n#include \"hn2.h\"", "hn2.h": "char hnb;", "hm.h": "char hma;\n#include \"hm2.h\"\n", "hm2.h": "char hmb;"}
 
 
 def render_prefix_item(it, i):
@@ -227,6 +228,10 @@ def render_prefix_item(it, i):
         return ['#include "hg.h"']
     if k == "inc_cmt":
         return ['#include "hc.h"']
+    if k == "inc_nest":
+        return ['#include "hn.h"']
+    if k == "inc_nestn":
+        return ['#include "hm.h"']
     raise ValueError(k)
 
 
@@ -276,7 +281,7 @@ def render_loc(c):
     seen_inc = set()
     for i, it in enumerate(c["prefix"], 1):
         ls = render_prefix_item(it, i)
-        if it["k"] in ("inc3n", "inc2x", "inc_cmt"):
+        if it["k"] in ("inc3n", "inc2x", "inc_cmt", "inc_nest", "inc_nestn"):
             # a C header may be included once only (its declarations would clash): later ones become blank lines
             if it["k"] in seen_inc:
                 ls = [""]
@@ -521,18 +526,15 @@ def c09(tier):
         raise common.ToolError("vacuous: %d literals accepted" % accepted)
     # ---- Layer 2: CppScan.tla (the scanner that extracts the literals, as coded), see C11; here the extracted literals are judged
     from . import cppscan
-    if tier == "quick":
-        sres, sconfs, sdrift, _st, slits = cppscan.run(tier, "c09", 6, 4, 59, 12000)
-    else:
-        sres, sconfs, sdrift, _st, slits = cppscan.run(tier, "c09", 7, 5, 29, 150000)
+    sdistinct, snconfs, sdrift, _st, slits = cppscan.run_both(tier, "c09", light=True)
     if sdrift:
-        print("[vf] NOTE: cpp::process no longer behaves like CppScan.tla on %d of %d replayed texts (model drift), e.g. %s" % (len(sdrift), len(sconfs), json.dumps(sdrift[0])[:400]))
+        print("[vf] NOTE: cpp::process no longer behaves like CppScan.tla on %d of %d replayed texts (model drift), e.g. %s" % (len(sdrift), snconfs, json.dumps(sdrift[0])[:400]))
     for v in slits:
         verdict.violation("literal extraction: %r yields %s, the textbook scanner %s" % (v["text"], json.dumps(v["literals"]), json.dumps(v["textbook"])),
                           dict(property=pid, layer="CppScan", text=v["text"], literals=v["literals"], textbook=v["textbook"]))
-    layer2 = dict(texts_model_checked=sres.distinct, invariants=["TextReq", "LitReq", "CommentReq", "LinesReq"], texts_replayed_into_cpp_process=len(sconfs),
+    layer2 = dict(texts_model_checked=sdistinct, invariants=["TextReq", "LitReq", "CommentReq", "LinesReq"], texts_replayed_into_cpp_process=snconfs,
                   model_conformant=(len(sdrift) == 0), first_drift=(sdrift[0] if sdrift else None), drifts=len(sdrift), literal_lists_differing_from_textbook=len(slits))
-    cov = dict(states=res.distinct + sres.distinct, transitions=res.generated, traces_validated_against_impl=len(cases) + len(sconfs), layer2_CppScan=layer2,
+    cov = dict(states=res.distinct + sdistinct, transitions=res.generated, traces_validated_against_impl=len(cases) + snconfs, layer2_CppScan=layer2,
                samples=[dict(body=c["body"], context=c["ctx"], source=c["_src"], expected_bytes=c["bytes"]) for c in cases[50:53]],
                literals_generated=total, literals_replayed=len(cases), accepted=accepted, rejected_by_compiler=rejected, disagreements=nbad,
                attributed_to_known_findings=verdict.known, max_body_symbols=maxlen, exhaustive=(len(cases) == total),
